@@ -367,7 +367,11 @@ fn check_schedule(sh: &Shared, now: i64, s: i64, unit: Unit, n: i64, modulate: b
     match e0 {
         Expect::Exactly(b) => {
             let d = s - b;
-            let ok = if maxd == 0 { d == 0 } else { d >= 0 && d < maxd.saturating_mul(1_000_000_000) && d % 1_000_000_000 == 0 };
+            // an instant beyond the ns range is legitimate only when some delay in [0, max) takes
+            // the boundary there (huge delay bounds); otherwise it is a wrong schedule
+            let ok = if s > 9_000_000_000_000_000_000 {
+                maxd > 0 && (maxd - 1).saturating_mul(1_000_000_000).saturating_add(b) > 9_000_000_000_000_000_000
+            } else if maxd == 0 { d == 0 } else { d >= 0 && d < maxd.saturating_mul(1_000_000_000) && d % 1_000_000_000 == 0 };
             if !ok {
                 // the offset proviso was evaluated at s (including the delay); re-evaluate at the boundary itself
                 if let Expect::Exactly(b2) = calendar::expected_boundary(now, b, unit, n, modulate) {
@@ -833,10 +837,25 @@ pub fn generate(rng: &mut Rng, tier: Tier, profile: &str) -> Scn {
     let is_time = matches!(trigger, TriggerSpec::Time { .. });
     let _ = profile;
     let tz = if is_time { Some(rng.pick(&calendar::ZONES).to_string()) } else { None };
-    let start_ns = match &tz {
+    let mut start_ns = match &tz {
         Some(z) => gen_start(rng, z),
         None => common::T0_NS,
     };
+    if let TriggerSpec::Time { unit, .. } = &trigger {
+        // Year and month arithmetic goes wrong on days the target year or month does not have:
+        // half of those schedules start on 29 February or on a 29th/30th/31st. The choice is
+        // derived from the instant drawn above, so that the rest of the scenario is unchanged.
+        let mut r2 = Rng::new(start_ns as u64 ^ 0x8a5c_d789_635d_2dff);
+        let days: &[i64] = match unit {
+            Unit::Year => &[1709208000, 1582977600], // 2024-02-29T12Z, 2020-02-29T12Z
+            // 31 Jan, 31 Mar, 31 May, 31 Aug, 31 Oct, 31 Dec, 30 Jan 2024; 29 Jan 2023
+            Unit::Month => &[1706702400, 1711886400, 1717156800, 1725105600, 1730376000, 1735646400, 1706616000, 1674993600],
+            _ => &[],
+        };
+        if !days.is_empty() && r2.chance(1, 2) {
+            start_ns = (*r2.pick(days) + r2.irange(-36_000, 36_000)) * 1_000_000_000;
+        }
+    }
     let append = rng.chance(3, 4);
     let nthreads_max = if matches!(trigger, TriggerSpec::OnStartUp { .. }) { 4 } else { 3 };
     let mut phases = vec![];
